@@ -127,7 +127,7 @@ pub fn run(ctx: &Ctx) -> Report {
     pt_run(
         ctx,
         "c09r",
-        ctx.n(40000, 1000000),
+        ctx.n(40000, 5000000),
         || {
             (any::<u64>(), prop_oneof![6 => 0u8..=10, 2 => 0u8..=24, 1 => 0u8..=128], any::<u64>())
                 .prop_map(|(dseed, n, nonce)| Case { dseed, n, nonce })
